@@ -360,7 +360,7 @@ func TestP1Tuples(t *testing.T) {
 func TestP2Programs(t *testing.T) {
 	rec := ev.New("C01", "programs")
 	defer rec.Finish(t)
-	rec.Rule("interpreter with MaxOps = 3000: recursion, self-reference and extreme-count hostile.Templates (procedure holding itself in every slot then bind, arrays containing themselves under forall/loop, self- and mutually recursive names, cycles of names whose value is an executable name, exec of itself, begin/push loops, for with zero increment or overflowing control variable, copy/putinterval/getinterval/roll/index/repeat/array/string with counts near 2^63, failing error handlers, eexec/readstring/closefile on the current file, forall over systemdict with redefinition, CMap operators outside their blocks, unterminated strings and procedures, extreme numbers, odd DSC lines, control bytes), each alone and composed with random programs of the C02/C03 generators and with random byte strings and mutated programs; texts of 300-1700 bytes made of short lexical pieces dense in comments, DSC lines, strings and line ends of all kinds, cut at any byte. These texts and a quarter of the other generated inputs of every part are delivered in cycled short reads (sizes 1-4096 around the library's buffer sizes, or mixtures of sizes 1-13), with or without the last data arriving together with io.EOF. Same child-process oracle as the tuples part. Non-trivial: program has >= 2 tokens; distinct by text.")
+	rec.Rule("interpreter with MaxOps = 3000: recursion, self-reference and extreme-count hostile.Templates (procedure holding itself in every slot then bind, arrays containing themselves under forall/loop, self- and mutually recursive names, cycles of names whose value is an executable name, exec of itself, begin/push loops, for with zero increment or overflowing control variable, copy/putinterval/getinterval/roll/index/repeat/array/string with counts near 2^63, failing error handlers, eexec/readstring/closefile on the current file, forall over systemdict with redefinition, CMap operators outside their blocks, unterminated strings and procedures, extreme numbers, odd DSC lines, control bytes), each alone and composed with random programs of the C02/C03 generators and with random byte strings and mutated programs; texts of 300-1700 bytes made of short lexical pieces dense in comments, DSC lines, strings and line ends of all kinds, cut at any byte; programs that first replace every handler in errordict by one that lets the program go on and then run 3-40 failing and state-changing pieces (eexec sections with bad digits, file operators, unmatched delimiters, CMap and font operators). These texts and a quarter of the other generated inputs of every part are delivered in cycled short reads (sizes 1-4096 around the library's buffer sizes, or mixtures of sizes 1-13), with or without the last data arriving together with io.EOF. Same child-process oracle as the tuples part. Non-trivial: program has >= 2 tokens; distinct by text.")
 	var cases []*hcase
 	sh, n := ev.Shard()
 	for i, tm := range hostile.Templates {
@@ -372,7 +372,21 @@ func TestP2Programs(t *testing.T) {
 	ev.SetupRapid(12000, 400000)
 	rapid.Check(t, func(t *rapid.T) {
 		var text, label string
-		switch rapid.IntRange(0, 6).Draw(t, "kind") {
+		switch rapid.IntRange(0, 7).Draw(t, "kind") {
+		case 7:
+			// every error handler of errordict replaced by one that lets the
+			// program go on: whatever an operator leaves half-done when it
+			// fails is then used by what follows (failed eexec sections, file
+			// operators, unmatched delimiters, CMap operators ...)
+			var sb strings.Builder
+			for _, e := range []string{"syntaxerror", "typecheck", "rangecheck", "stackunderflow", "undefined", "undefinedresult", "ioerror", "invalidaccess", "limitcheck", "unmatchedmark", "invalidfont", "undefinedresource", "dictstackunderflow", "invalidexit", "unregistered", "stackoverflow", "dictstackoverflow", "execstackoverflow", "VMerror", "invalidfileaccess", "undefinedfilename"} {
+				sb.WriteString("errordict /" + e + rapid.SampledFrom([]string{" {} put\n", " {pop} put\n", " {} put\n"}).Draw(t, "handler"))
+			}
+			pieces := []string{"currentfile eexec 0000 000z ", "currentfile eexec 0000000z", "currentfile eexec 00z", "currentfile eexec\nd9d66f633b ", "currentfile eexec ", "currentfile closefile ", "1 (x) add ", "pop pop pop ", "(abc) 7 get ", "<<", ">>", "<", "<41> ", "%\n", "\n%%x\n", "\n", "[ ", "] ", "mark ", "cleartomark ", "{ ", "} ", "exec ", "1 dict begin ", "end ", "currentfile 5 string readstring ", "5 string currentfile exch readstring ", "/CIDInit /ProcSet findresource begin ", "begincmap ", "endcmap ", "1 begincidchar ", "endcidchar ", "<00> <ff> ", "1 begincodespacerange ", "endcodespacerange ", "/F 5 dict definefont ", "/F findfont ", "1183615869 internaldict ", "StandardEncoding ", "dup ", "1 index ", "exch ", "(", ")", "~>", "<~"}
+			for n := rapid.IntRange(3, 40).Draw(t, "npieces"); n > 0; n-- {
+				sb.WriteString(pieces[rapid.IntRange(0, len(pieces)-1).Draw(t, "hpiece")])
+			}
+			text = sb.String()
 		case 5, 6:
 			// short lexical pieces dense in comments and line ends of all
 			// kinds, 300-1700 bytes long and cut anywhere: token, comment and
